@@ -26,6 +26,7 @@
          made the request (so the run on disk contains the attest of every released vote);
      S3  attest-once on every real single run: along the run that is on disk plus its continuation,
          two observed attest actions with equal (round, period, step) carry equal values.
+     (S1/S3 for step redo only when the delivered votes do not back two redo values: [redo_excused].)
    The F6 signature (a successful write for the RE-EMITTED attest of a restored start stores the
    zero player and no actions) is reported as v_known "c02_restored_attest_persists_empty_state".
    No proofs in this file. *)
@@ -211,6 +212,34 @@ Definition att_same_key (a b : att) : bool :=
 Definition att_ok (a b : att) : bool :=
   negb (att_same_key a b) || value_eqb (snd a) (snd b).
 
+(* votes delivered as verified by the events of the case *)
+Definition ev_votes (e : ext_event) : list vote :=
+  match e with
+  | EvMsg m =>
+      if me_verified m && negb (mm_err (me_meta m)) && negb (mm_cancelled (me_meta m)) then
+        match me_in m with
+        | InVote x => [x]
+        | InBundle b => ub_votes b ++ flat_map (fun e => [eqv_first e; eqv_second e]) (ub_eqs b)
+        | InPayload _ => []
+        end
+      else []
+  | _ => []
+  end.
+
+(* The redo value of (r, p) is the cached non-bottom value of the next-type thresholds of period p-1
+   (voteTrackerPeriod.Cached): it is unique only if those thresholds agree (hypothesis
+   thresholds_consistent of attest-once; AgreementAttestOnce.script_redo shows two redo values in one
+   run without it).  A redo conflict is therefore EXCUSED when the case delivered next-type votes of
+   (r, p-1) for both values, i.e. when the script violates the hypothesis. *)
+Definition redo_backed (D : list vote) (r p : N) (v : value) : bool :=
+  existsb (fun x => (vt_rnd x =? r) && (vt_per x =? sub1 p) && (s_next <=? vt_step x) && value_eqb (vt_val x) v) D.
+Definition redo_excused (D : list vote) (r p s : N) (v v' : value) : bool :=
+  (s =? s_redo) && redo_backed D r p v && redo_backed D r p v'.
+Definition att_ok_exc (D : list vote) (a b : att) : bool :=
+  att_ok a b || match a with (r, p, s, v) => redo_excused D r p s v (snd b) end.
+Definition cv_conflict_exc (D : list vote) (a b : cvote) : bool :=
+  cv_conflict a b && negb (redo_excused D (cv_rnd a) (cv_per a) (cv_step a) (cv_val a) (cv_val b)).
+
 Definition obs_attests (acts : term) : list att :=
   match acts with
   | TL l =>
@@ -226,12 +255,12 @@ Definition obs_attests (acts : term) : list att :=
   end.
 
 (* add the attests of one action list to the lineage, checking attest-once *)
-Fixpoint lin_add (lin : list att) (new : list att) : list att * bool :=
+Fixpoint lin_add (D : list vote) (lin : list att) (new : list att) : list att * bool :=
   match new with
   | [] => (lin, true)
   | a :: t =>
-      let ok := forallb (att_ok a) lin in
-      let '(lin', ok') := lin_add (lin ++ [a]) t in
+      let ok := forallb (att_ok_exc D a) lin in
+      let '(lin', ok') := lin_add D (lin ++ [a]) t in
       (lin', ok && ok')
   end.
 
@@ -239,12 +268,12 @@ Definition votes_of (own : list N) (atts : list att) : list cvote :=
   flat_map (fun a => match a with (r, p, s, v) => map (fun snd => mkCV snd r p s v) own end) atts.
 
 (* S1: a new released vote does not conflict with the earlier ones *)
-Fixpoint rel_add (old : list cvote) (new : list cvote) : list cvote * bool :=
+Fixpoint rel_add (D : list vote) (old : list cvote) (new : list cvote) : list cvote * bool :=
   match new with
   | [] => (old, true)
   | v :: t =>
-      let ok := negb (existsb (cv_conflict v) old) in
-      let '(old', ok') := rel_add (old ++ [v]) t in
+      let ok := negb (existsb (cv_conflict_exc D v) old) in
+      let '(old', ok') := rel_add D (old ++ [v]) t in
       (old', ok && ok')
   end.
 
@@ -252,6 +281,11 @@ Fixpoint no_conflict_b (l : list cvote) : bool :=
   match l with
   | [] => true
   | v :: t => negb (existsb (cv_conflict v) t) && no_conflict_b t
+  end.
+Fixpoint no_conflict_exc_b (D : list vote) (l : list cvote) : bool :=
+  match l with
+  | [] => true
+  | v :: t => negb (existsb (cv_conflict_exc D v) t) && no_conflict_exc_b D t
   end.
 
 Record oreq := mkReq { q_acts : term; q_lin : list att; q_votes : list cvote; q_restored : bool }.
@@ -278,18 +312,18 @@ Definition obad (o : ostate) (b : bool) (why : string) : ostate :=
 
 Definition zero_rps : term := TL [TZ 0; TZ 0; TZ 0].
 
-Definition spec_op (own : list N) (o : ostate) (op : cop) : ostate :=
+Definition spec_op (own : list N) (D : list vote) (o : ostate) (op : cop) : ostate :=
   match op with
   | OStart restored acts =>
       let base := if restored then match o_dlin o with Some l => l | None => [] end else [] in
-      let '(lin', ok) := lin_add base (obs_attests acts) in
+      let '(lin', ok) := lin_add D base (obs_attests acts) in
       (* the re-emitted attests are already part of the run on disk: only their consistency is checked *)
       let lin'' := if restored then base else lin' in
       obad (obad (mkO lin'' acts false restored [] [] (o_dlin o) (o_rel o) (o_ok o) (o_f6 o) (o_crashes o) (o_why o))
                  ok "attest_once_on_restart")
            (negb restored || match o_dlin o with Some _ => true | None => false end) "restored_without_write"
   | OEv k _ acts =>
-      let '(lin', ok) := lin_add (o_lin o) (obs_attests acts) in
+      let '(lin', ok) := lin_add D (o_lin o) (obs_attests acts) in
       obad (mkO lin' acts k false (o_reqs o) (o_await o) (o_dlin o) (o_rel o) (o_ok o) (o_f6 o) (o_crashes o) (o_why o))
            ok "attest_once"
   | ODo rel =>
@@ -308,7 +342,7 @@ Definition spec_op (own : list N) (o : ostate) (op : cop) : ostate :=
               | [] => ([], [])
               end
             else ([], o_await o) in
-          let '(rel', ok1) := rel_add (o_rel o) relv in
+          let '(rel', ok1) := rel_add D (o_rel o) relv in
           obad (obad (mkO (o_lin o) (TL []) false false reqs' await' (o_dlin o) rel' (o_ok o) (o_f6 o) (o_crashes o) (o_why o))
                      (list_eqb cv_eqb relv exp) "release_not_after_own_persist")
                ok1 "conflicting_votes_released"
@@ -335,8 +369,11 @@ Definition spec_op (own : list N) (o : ostate) (op : cop) : ostate :=
       mkO (o_lin o) (TL []) false false [] [] (o_dlin o) (o_rel o) (o_ok o) (o_f6 o) (o_crashes o + 1) (o_why o)
   end.
 
+Definition all_delivered (ops : list cop) : list vote :=
+  flat_map (fun o => match o with OEv _ e _ => ev_votes e | _ => [] end) ops.
+
 Definition spec_run (own : list N) (ops : list cop) : ostate :=
-  fold_left (spec_op own) ops (mkO [] (TL []) false false [] [] None [] true false 0 (TL [])).
+  fold_left (spec_op own (all_delivered ops)) ops (mkO [] (TL []) false false [] [] None [] true false 0 (TL [])).
 
 (* ---------- the check ---------- *)
 Definition check (t : term) : term :=
@@ -348,10 +385,13 @@ Definition check (t : term) : term :=
       (* the wrapper's released list must be the observed one (they are compared do by do above) *)
       let corr := r_corr r &&
                   list_eqb cv_eqb (f_released mstate ext_event cvote (r_f r)) (o_rel o) in
-      let nontrivial := (0 <? o_crashes o) && negb (match o_rel o with [] => true | _ => false end) in
-      let detail := TL [o_why o; TS (if no_conflict_b (o_rel o) then "no_conflicting_votes_released"
+      (* strict: no conflict at all (C02_spec_ok_sound); a case whose only conflicts are excused redo
+         votes (script violates thresholds_consistent) is accepted but counted as trivial *)
+      let strict := no_conflict_b (o_rel o) in
+      let nontrivial := strict && (0 <? o_crashes o) && negb (match o_rel o with [] => true | _ => false end) in
+      let detail := TL [o_why o; TS (if strict then "no_conflicting_votes_released"
                                      else "CONFLICTING_VOTES_RELEASED")] in
       if o_f6 o then v_known "c02_restored_attest_persists_empty_state" detail
-      else if negb (o_ok o && no_conflict_b (o_rel o)) then v_viol detail
+      else if negb (o_ok o && no_conflict_exc_b (all_delivered (k_ops c)) (o_rel o)) then v_viol detail
       else verdict true corr nontrivial (r_detail r)
   end.
